@@ -225,11 +225,40 @@ def reach (defs : List (Def K)) (u d : String) : Bool :=
 def referencedByUnselected (defs : List (Def K)) (sel : String → Bool) (n : String) : Bool :=
   (seqNames defs).any fun u => !sel u && reach defs u n
 
-/-- `filter_sequence_gate_definitions_to_keep`: the retained definitions, in their original order. -/
-def keptDefs (defs : List (Def K)) (sel : String → Bool) : List (Def K) :=
+/-- `filter_sequence_gate_definitions_to_keep`, literally: for every unselected sequence definition and
+every sequence definition one `has_path_connecting` query (`referencedByUnselected`), then the filter.
+(Each query is modelled by a path-enumerating search, exponential on dense graphs; the drivers run the
+equivalent `keptDefs` below — `keptDefs_eq_pairwise`.) -/
+def keptDefsPairwise (defs : List (Def K)) (sel : String → Bool) : List (Def K) :=
   defs.filter fun d => match d.spec with
     | .other => true
     | .seq _ _ => !sel d.name || referencedByUnselected defs sel d.name
+
+/-- add `y` to `acc` unless already visited or already added -/
+def addNew (visited : List String) (acc : List String) (y : String) : List String :=
+  if visited.contains y || acc.contains y then acc else acc ++ [y]
+
+/-- the successors of the frontier that are not yet visited, without repetition -/
+def newNodes (defs : List (Def K)) (frontier visited : List String) : List String :=
+  (frontier.flatMap (mentions defs)).foldl (addNew visited) []
+
+/-- breadth-first closure under `mentions` (a DFS/BFS with a visited set, as `has_path_connecting` runs it) -/
+def bfs (defs : List (Def K)) : Nat → List String → List String → List String
+  | 0, _, visited => visited
+  | f + 1, frontier, visited =>
+    let new := newNodes defs frontier visited
+    if new.isEmpty then visited else bfs defs f new (visited ++ new)
+
+def reachFrom (defs : List (Def K)) (sources : List String) : List String :=
+  bfs defs ((seqNames defs).length + 1) sources sources
+
+/-- `filter_sequence_gate_definitions_to_keep`: the retained definitions, in their original order — one
+closure from all unselected sequence definitions at once instead of one query per pair. -/
+def keptDefs (defs : List (Def K)) (sel : String → Bool) : List (Def K) :=
+  let reached := reachFrom defs ((seqNames defs).filter fun u => !sel u)
+  defs.filter fun d => match d.spec with
+    | .other => true
+    | .seq _ _ => !sel d.name || reached.contains d.name
 
 /-- The part of a `Program` the expansion reads and writes. -/
 structure Program (K : Type) where
